@@ -26,3 +26,11 @@ Theorem C11_reply_of_other_client_ignored : forall s c r k,
   (pendof s c <> r \/ r = 0 \/ mem c (conns s) = false) -> sstep (SReply c r k) s = s.
 Proof. exact s_foreign_reply_noop. Qed.
 Print Assumptions C11_reply_of_other_client_ignored.
+
+(** Isolation: whatever the connect / disconnect / send / reply / timeout-token / network handlers do for other clients,
+    in any number and order and from any state, the queue, the pending id and the callbacks of client [d] are the same
+    afterwards.  (The pump labels are not covered: see finding F1.) *)
+Theorem C11_handler_isolation : forall ls s d,
+  Forall (fun l => exists c, concerns l c /\ c <> d) ls -> view (srun ls s) d = view s d.
+Proof. exact s_handlers_isolation. Qed.
+Print Assumptions C11_handler_isolation.
